@@ -196,6 +196,11 @@ def _t_forit(line, arg=None):
     return re.sub(r'^(\s*)for (\w+) in (?!verif_it: )', r'\1for \2 in verif_it: ', line)
 
 
+def _t_opassign(line, arg=None):
+    """`x /= y;` -> `x = x / y;` (compound assignment on bnum integers: `DivAssign` is defined as `Div`)"""
+    return re.sub(r'^(\s*)(\w+) /= (.+);\s*$', r'\1\2 = \2 / \3;', line)
+
+
 def _t_sort(line, arg=None):
     """`v.sort();` -> `ol_sort(&mut v);` (outlined slice sort with its assumed contract)"""
     return re.sub(r'^(\s*)(\w+)\.sort\(\);\s*$', r'\1ol_sort(&mut \2);', line)
@@ -215,7 +220,7 @@ def _t_r7(line, arg=None):
     return '%slet verif_%s = [%s]; for verif_i_%s in 0..verif_%s.len()' % (ind, x, lst, x, x)
 
 
-TRANSFORMERS = [('R10', _t_r10), ('Rit', _t_forit), ('Rfor', _t_forname), ('R8', _t_r8), ('Rsort', _t_sort), ('R7', _t_r7), ('R1', _t_r1), ('R1u', _t_unsafe), ('ret', _t_ret), ('brace', _t_brace)]
+TRANSFORMERS = [('Rdiv', _t_opassign), ('R10', _t_r10), ('Rit', _t_forit), ('Rfor', _t_forname), ('R8', _t_r8), ('Rsort', _t_sort), ('R7', _t_r7), ('R1', _t_r1), ('R1u', _t_unsafe), ('ret', _t_ret), ('brace', _t_brace)]
 
 
 def infer_transform(pinned_line, ann_line):
@@ -251,6 +256,9 @@ def key(line):
     s = line.strip()
     if s == '{':
         return '<<brace>>'
+    md = re.match(r'^(\w+) = (\w+) / (.+);$', s)
+    if md and md.group(1) == md.group(2):
+        return '%s /= %s;' % (md.group(1), md.group(3))
     m10 = R10_OUT.match(s)
     if m10:
         return 'for %s in %s..%s' % (m10.group(1), m10.group(2), m10.group(3))
